@@ -6,6 +6,7 @@ import builtins
 import functools
 import inspect
 import operator
+import os
 import re
 import sys
 import types
@@ -79,6 +80,16 @@ def func_info(func):
     if info is not None:
         return info
     filename = code.co_filename
+    if filename.startswith("<frozen ") and filename.endswith(">"):
+        m_ = sys.modules.get(filename[8:-1])
+        f_ = getattr(m_, "__file__", None) or getattr(getattr(m_, "__spec__", None), "origin", None)
+        if f_ and f_.endswith(".py"):
+            filename = f_
+        else:
+            import sysconfig
+            cand = os.path.join(sysconfig.get_paths()["stdlib"], filename[8:-1].replace(".", "/") + ".py")
+            if os.path.exists(cand):
+                filename = cand
     try:
         idx = _index_file(filename)
     except (OSError, SyntaxError) as e:
